@@ -1,13 +1,53 @@
-"""C10 - raising the threshold only merges clusters (flat clustering part; the cognate part
-is added by the lexstat component)."""
-from . import C05
+"""C10 - raising the threshold only merges clusters (flat clustering, streams of C05) and cognate
+sets (LexStat.cluster at two thresholds, streams of C06)."""
+import json
+
+from . import C05, C06
+from ..comp import flat
+from ..lib import coqrun, driver, env, proofs, report
 
 PROP = "C10"
+FLAT_BITS = (4,)        # flat_case_code: refinement of the two flat_cluster outputs
+LEX_BITS = (5,)         # lex_case_code: refinement of the two id columns
+LEX_COUNTS = {"quick": 200, "thorough": 8000}
 
 
 def main(tier, seed):
-    return C05.main(tier, seed, prop=PROP, prop_bits=(4,))
+    run = report.Run(PROP, tier, seed)
+    pr = proofs.check_property(PROP)
+    proofs_ok = run.proofs(pr)
+    env.use_repo()
+    d = coqrun.rundir(PROP)
+    total_prop = 0
+    try:
+        for name, cases in C05.streams(tier, seed):
+            st = driver.run_stream(run, flat, cases, d, name, "flat_case", "flat_case_code", FLAT_BITS)
+            total_prop += st["prop_fail"] + st["impl_errors"]
+    except coqrun.CoqError as e:
+        run.violation({"kind": "model does not evaluate", "no_longer_checks": "Cluster/FlatQ.v", "error": str(e)},
+                      no_input=True)
+    # cognate clause: the lexstat streams with their own checker bit
+    total_prop += C06.main(tier, seed, prop=PROP, prop_bits=LEX_BITS, run=run, n=LEX_COUNTS[tier])
+    if not proofs_ok and not total_prop:
+        run.violation({"kind": "proof obligation broken", "no_longer_checks": pr["broken"], "log": pr["log"][-1500:]},
+                      no_input=True)
+    c = run.coverage
+    c["rule"] = ("flat part: cases = (method, symmetric grid matrix, thresholds t1<=t2) as in C05 (exhaustive small scope "
+                 "+ seeded random); non-trivial = at least one merge happened and at least two clusters remain at one "
+                 "threshold.  cognate part: cases = (small wordlist, method in turchin/edit-dist/sca/lexstat(fixed scorer)/"
+                 "stub-oracle, linkage, thresholds t1<=t2) as in C06; non-trivial = some concept with >=3 words is split "
+                 "into more than one but fewer than its number of words sets at one threshold.  Distinct by full input.")
+    c["exhaustive"] = False
+    c["trusted_base"] += [
+        "flat part: correspondence of Cluster/FlatQ.flat_cluster with lingpy.algorithm.clustering.flat_cluster as in C05 "
+        "(exactness-grid argument, DESIGN 2.1)"]
+    run.assumptions += ["theorems are generic in the ordered carrier: they need only transitivity of <=, so they cover "
+                        "the float order as well as the rational one"]
+    return run.finish()
 
 
 def replay(path):
+    rep = json.load(open(path))
+    if "rows" in rep.get("case", {}):
+        return C06.replay(path)
     return C05.replay(path)
